@@ -68,6 +68,18 @@ P_C08_result == (IsSummary /\ E.ls > 0) =>
    /\ LexLeq(Objective(NetE, Rec[E.ls].S), Objective(NetE, Rec[E.start].S))
    /\ Rec[E.ls].S = Rec[Rec[E.ls].pi].S
 
+\* the search stops only at a fixpoint: run again on its own result it accepts no step and
+\* returns the same schedule
+P_C08_fix == E.ev = "rerun" => (E.nsteps = 0 /\ E.S = Rec[E.pi].S)
+
+(* ---------------- C11: every local-search candidate ---------------- *)
+IsCand == E.ev = "cand"
+P_C11_inv == IsCand => SchedInv(NetE, E.S)
+P_C11_caches == IsCand => CachesOK(NetE, E.S)
+\* generating the candidates does not panic and leaves the base schedule observably unchanged
+P_C11_enum == E.ev = "enum" => (E.ok /\ ~E.panic /\ E.hb = E.ha)
+P_C11_project == E.ev # "candfail"
+
 (* ---------------- C16: the answer is the product of all stages ---------------- *)
 SameActs(N, A, B) == VehIds(A) = VehIds(B) /\ ActsOfVeh(N, A) = ActsOfVeh(N, B) /\ TypeMap(A) = TypeMap(B)
 SameTours(A, B) == TourMap(A) = TourMap(B) /\ TypeMap(A) = TypeMap(B)
